@@ -34,6 +34,8 @@ try:
         res["tail"] = c.stdout.splitlines()[-3:]
 finally:
     subprocess.run(["git", "-C", "/repo", "worktree", "remove", "--force", wt], capture_output=True)
+    import hashlib as _h
+    shutil.rmtree("/tmp/vcoq-" + _h.sha1(os.path.abspath(wt).encode()).hexdigest()[:10], ignore_errors=True)
     if _ev_saved is not None:
         open(_ev, "w").write(_ev_saved)
 json.dump(res, open(os.path.join(d, f"result_{pid}.json"), "w"), indent=1)
